@@ -197,7 +197,20 @@ type (
 	GeneralNameURI    string
 )
 
+// rfc822Name, dNSName and uniformResourceIdentifier are IA5Strings: 7 bit only
+func checkIA5(name string) error {
+	for i := 0; i < len(name); i++ {
+		if name[i] > 127 {
+			return fmt.Errorf("extensions: '%v' is no valid IA5 string", name)
+		}
+	}
+	return nil
+}
+
 func (g GeneralNameRFC822) marshal() ([]byte, error) {
+	if err := checkIA5(string(g)); err != nil {
+		return nil, err
+	}
 	return asn1.Marshal(asn1.RawValue{
 		Tag:   1,
 		Class: asn1.ClassContextSpecific,
@@ -206,6 +219,9 @@ func (g GeneralNameRFC822) marshal() ([]byte, error) {
 }
 
 func (g GeneralNameDNS) marshal() ([]byte, error) {
+	if err := checkIA5(string(g)); err != nil {
+		return nil, err
+	}
 	return asn1.Marshal(asn1.RawValue{
 		Tag:   2,
 		Class: asn1.ClassContextSpecific,
@@ -214,6 +230,9 @@ func (g GeneralNameDNS) marshal() ([]byte, error) {
 }
 
 func (g GeneralNameURI) marshal() ([]byte, error) {
+	if err := checkIA5(string(g)); err != nil {
+		return nil, err
+	}
 	return asn1.Marshal(asn1.RawValue{
 		Tag:   6,
 		Class: asn1.ClassContextSpecific,
